@@ -2,7 +2,7 @@
 import json
 from lib.vcheck import *
 
-QUICK_FORMATS = "jpeg,png,gif,webp,tiff,svg,mp4,mp3,flac,wav"
+QUICK_FORMATS = "jpeg,png,gif,webp,tiff,svg,mp4,mov,mp3,flac,wav,avix"
 
 
 def run(ctx):
